@@ -644,11 +644,27 @@ Section ByMethod.
   Local Notation F := (F N).
 
   (* an event as notify sees it: type, content, time stamp of a TimedEvent *)
-  Record sevent := mkEv { ne_type : etype; ne_content : payload N; ne_stamp : option F }.
+  Record sevent := mkSev { ne_type : etype; ne_content : payload N; ne_stamp : option F }.
 
   (* the subscriber's reaction: registers from inside notify, at most f deep *)
   Definition react (f : nat) (lsub : list nat) (tm : F) : pst N -> payload N -> pst N :=
     fun y q => preg N f lsub tm false y q.
+
+  (* EventBased*.notify(event): the event must be the data event the class is
+     built for (a timed one for the time-stamped statistic, whose stamp is the
+     registration time); what register itself refuses is refused in [sreg] *)
+  Definition eb_notify (k : skind) (lsub : list nat) (tm : F) (reenter : pst N -> payload N -> pst N)
+             (ext : bool) (x : pst N) (e : sevent) : pst N :=
+    if etype_eqb (ne_type e) (std_type k) then
+      match k with
+      | KPersistent =>
+          match ne_stamp e with
+          | Some t => reg_body N lsub t reenter ext x (ne_content e)
+          | None => set_raised N x
+          end
+      | _ => reg_body N lsub tm reenter ext x (ne_content e)
+      end
+    else set_raised N x.
 
   (* Sim*.notify(event): [types] = self._event_types, [tm] = float(simulator_time) *)
   Definition snotify (k : skind) (f : nat) (lsub : list nat) (types : list etype) (tm : F)
@@ -684,12 +700,12 @@ Section ByMethod.
                  end
     end.
   Definition construct (ctor : skind -> nat -> pykey -> pynm -> pysim -> pyprod -> pyetarg -> cobj -> cres)
-             (listen : nat -> pyprod -> pyetarg -> cobj -> cres) (c : cobj) (sid : nat) (d : sdecl) : cres :=
+             (listen : skind -> nat -> pyprod -> pyetarg -> cobj -> cres) (c : cobj) (sid : nat) (d : sdecl) : cres :=
     match d_chans d with
     | [] => ctor (d_kind d) sid (KStr (d_key d)) NmStr (SimObj true) ProdNone EtNone (new_obj c)
     | ch :: r =>
         match ctor (d_kind d) sid (KStr (d_key d)) NmStr (SimObj true) ProdObj (EtObj (chan_et ch)) (new_obj c) with
-        | COk c1 => listen_all listen sid r c1
+        | COk c1 => listen_all (listen (d_kind d)) sid r c1
         | err => err
         end
     end.
@@ -707,9 +723,9 @@ Section ByMethod.
   (* the simulator's notification behind a log entry *)
   Definition ev_of (o : obsrec) : sevent :=
     match o with
-    | ObsV c v t => mkEv (chan_et c) (payload_of N pl v) (Some (tmf N t))
-    | ObsWarm t => mkEv ETWarmup (pl_default N) (Some (tmf N t))
-    | ObsEnd t => mkEv ETEndRepl (pl_default N) (Some (tmf N t))
+    | ObsV c v t => mkSev (chan_et c) (payload_of N pl v) (Some (tmf N t))
+    | ObsWarm t => mkSev ETWarmup (pl_default N) (Some (tmf N t))
+    | ObsEnd t => mkSev ETEndRepl (pl_default N) (Some (tmf N t))
     end.
   Definition otm (o : obsrec) : F :=
     match o with ObsV _ _ t => tmf N t | ObsWarm t => tmf N t | ObsEnd t => tmf N t end.
@@ -747,7 +763,7 @@ Section ByMethod.
     build_from ctor listen 0 cfg (co_set_dict r co_empty).
 End ByMethod.
 
-Arguments mkEv {N} _ _ _.
+Arguments mkSev {N} _ _ _.
 Arguments ne_type {N} _.
 Arguments ne_content {N} _.
 Arguments ne_stamp {N} _.
